@@ -25,10 +25,11 @@ ASSUMPTIONS = ["definitions: volume = sum of per-substance volumes; concentratio
                "mixture in the denominator unit; rounding to config.precisions / internal_precision",
                "observers whose denominator is zero for the vessel are skipped (undefined)"]
 def shard_config(shard, tier):
-    """three of eight shards run under other documented settings: default densities inf (solids/enzymes without
+    """four of eight shards run under other documented settings: default densities inf (solids/enzymes without
     volume) and 2.5/0.4, and other display precisions"""
     return {5: {'default_solid_density': float('inf'), 'default_enzyme_density': float('inf')},
             6: {'default_solid_density': 2.5, 'default_enzyme_density': 0.4},
+            2: {'default_solid_density': float('inf')},
             # other display precisions, 0 digits for a moles unit and a mass unit among them
             4: {'precisions': {'default': 2, 'umol': 0, 'uL': 2, 'mg': 0, 'nmol': 4}}}.get(shard % 8)
 
